@@ -47,6 +47,8 @@ def main():
                             case.update(n1=300, k=200, sev_at=[5])
                         if 'ops' in case:
                             case['ops'] = [dict(o, n=1000) if o.get('op') == 'burst' else o for o in case['ops']]
+                    if case.get('kind') == 'storm':
+                        case = dict(case, cores=[dict(case['cores'][0], words=case['cores'][0]['words'][:300])], max_ticks=304)
                     case2 = json.loads(json.dumps(case))
                     res = scen.run(case)
                     res2 = scen.run(case2)
